@@ -421,6 +421,12 @@ Proof.
   intro H. inversion H. exists nd. repeat split; assumption.
 Qed.
 
+Lemma atrue_seq0 d i a : get_node g1 i = Some a -> n_kind a = KSeq -> atrue g1 ne d i = true -> anyT (n_kids a).
+Proof.
+  intros G K A. destruct d; simpl in A; rewrite G, K in A; destruct (n_suppress a); try discriminate.
+  exists d. exact A.
+Qed.
+
 (* ---------------- `x (s x')*` against `e+[t]` *)
 Lemma star_sep_node g st s x : star_sep g st = Some (s, x) ->
   exists nd q, get_node g st = Some nd /\ n_kind nd = KStar /\ plain nd = true /\ n_suppress nd = false /\
@@ -622,7 +628,7 @@ Proof.
   induction m as [|m IHm]; intros l1 l2 fa fb L A psq1 psq2 a1 a2 s; [discriminate|].
   cbn [seq_align] in A. destruct l1 as [|x t1], l2 as [|y t2]; try discriminate.
   - apply srel_done. apply anyT_nil.
-  - apply orb_true_iff in A as [A|A]; [apply orb_true_iff in A as [A|A]|].
+  - apply orb_true_iff in A as [A|A]; [apply orb_true_iff in A as [A|A]; [apply orb_true_iff in A as [A|A]|]|].
     + apply andb_true_iff in A as [A1 A2]. apply seq_head; try assumption.
       intros b1 b2 s'. apply IHm; assumption.
     + apply andb_true_iff in A as [A1 A2]. destruct t1 as [|st t1]; [discriminate A1|]. cbn [tl] in A2.
@@ -665,6 +671,46 @@ Proof.
               ** intro q. destruct (QS q) as [q1|q2]; [left; apply F; exact q1 | right; exact q2].
               ** apply IHm; assumption.
         -- rewrite C. right; right. apply eqx_set_pos_r. apply eqx_set_pos_r. exact Z.
+        -- rewrite C. right; right. exact I.
+    + (* a plain sequence of the first grammar stands for a segment of the second one's children *)
+      destruct (seq_kids g1 x) as [ks|] eqn:SK; [|discriminate].
+      apply andb_true_iff in A as [A A3]. apply andb_true_iff in A as [A1 A2].
+      destruct (seq_kids_node g1 x ks SK) as (nd & G & K & Pl & Su & Ki).
+      assert (EQ : seq_loop (P2 fb) psq2 (y :: t2) a2 s =
+                   seq_loop (P2 fb) psq2 (firstn (length ks) (y :: t2) ++ skipn (length ks) (y :: t2)) a2 s)
+        by (rewrite firstn_skipn; reflexivity).
+      rewrite EQ. clear EQ. rewrite seq_loop_app.
+      cbn [seq_loop]. destruct fa as [|fa]; [left; reflexivity|].
+      assert (L' : fa + fb <= n) by lia.
+      pose proof (seq_zip _ _ A2 fa fb L' true psq2 [] a2 s) as Z.
+      pose proof (seq_node_cases g1 input orc fa x nd psq1 s G K Pl Su) as C. rewrite Ki in C.
+      assert (QX : anyT (x :: t1) -> anyT ks \/ anyT t1).
+      { intro q. apply anyT_cons in q as [[d q]|q]; [left | right; exact q].
+        rewrite <- Ki. apply (atrue_seq0 d x nd G K q). }
+      destruct Z as [Z|[Z|Z]].
+      * rewrite Z in C. rewrite C. left; reflexivity.
+      * rewrite Z. right; left; reflexivity.
+      * destruct (seq_loop (P1 fa) true ks [] s) as [r1 s1|s1|w1],
+                 (seq_loop (P2 fb) psq2 (firstn (length ks) (y :: t2)) a2 s) as [r2 s2|s2|w2]; try contradiction.
+        -- destruct Z as (E & d1 & d2 & E1 & E2 & D & F). subst s2 r1 r2. cbn [app] in C. rewrite C.
+           assert (L2 : S fa + fb <= n) by lia.
+           destruct d1 as [|v d1].
+           ++ cbn [truthy]. eapply srel_shift with (e1 := []) (e2 := d2) (Q' := anyT t1).
+              ** exact D.
+              ** intro q. destruct (QX q) as [q1|q2]; [exfalso; apply (F q1); reflexivity | right; exact q2].
+              ** rewrite app_nil_r. apply IHm; assumption.
+           ++ pose proof (post_list_tt x nd (v :: d1) Su (proj1 D)) as T.
+              assert (N : v :: d1 <> []) by discriminate. specialize (T N).
+              destruct T as [T1 T2]. rewrite T1.
+              eapply srel_shift with (e1 := [post x nd (RList (v :: d1))]) (e2 := d2) (Q' := anyT t1).
+              ** destruct D as (D1 & D2 & D3). repeat split.
+                 --- constructor; [split; assumption | constructor].
+                 --- exact D2.
+                 --- discriminate.
+                 --- intro H. apply D3 in H. discriminate.
+              ** intros _. left. discriminate.
+              ** apply IHm; assumption.
+        -- rewrite C. right; right. apply eqx_set_pos_l. apply eqx_set_pos_l. exact Z.
         -- rewrite C. right; right. exact I.
 Qed.
 
@@ -1161,16 +1207,48 @@ Proof.
   - rewrite C. right; right. exact I.
 Qed.
 
+Lemma step_unwrap_l i j c x fa fb psq1 psq2 s :
+  fa + S fb <= n -> unit_kid g1 i = Some x -> pin_any R x j = true ->
+  (negb c || efree g2 EDEPTH j)%bool = true ->
+  orel i j c s (P1 (S fa) i psq1 s) (P2 (S fb) j psq2 s).
+Proof.
+  intros L U H Hc. unfold unit_kid in U. destruct (seq_kids g1 i) as [[|x' [|? ?]]|] eqn:SK; try discriminate.
+  inversion U; subst x'. destruct (seq_kids_node g1 i [x] SK) as (nd & G & K & Pl & Su & Ki).
+  pose proof (seq_node_cases g1 input orc fa i nd psq1 s G K Pl Su) as C. rewrite Ki in C. cbn [seq_loop] in C.
+  pose proof (kid_any fa (S fb) x j L H true psq2 s) as O.
+  destruct O as [O|[O|O]]; [rewrite O in C; left; exact C | right; left; exact O |].
+  destruct (P1 fa x true s) as [r1 s1|s1|w1], (P2 (S fb) j psq2 s) as [r2 s2|s2|w2]; try contradiction.
+  - destruct O as (E & V & N1 & N2 & AT). subst s2. destruct V as (Gd1 & Gd2 & T & _). right; right.
+    destruct (truthy r1) eqn:T1; cbn [app] in C; rewrite C.
+    + assert (TT : tt (post i nd (RList [r1]))).
+      { apply post_list_tt; [exact Su | apply accok1; split; [exact T1 | apply Gd1; exact T1] | discriminate]. }
+      split; [reflexivity|]. split.
+      * split; [apply tt_good; exact TT|]. split; [exact Gd2|]. split; [destruct TT; congruence|].
+        intros _. rewrite (tt_not_none _ (proj1 TT)), (tt_not_none r2 (eq_sym T)). reflexivity.
+      * split; [intros; apply fnn_of_tt; exact TT|]. split; [exact N2 | intros _ _; apply TT].
+    + split; [reflexivity|]. split.
+      * split; [apply good_falsy; reflexivity|]. split; [exact Gd2|]. split; [exact T|].
+        intro Ec. subst c. cbn [negb orb] in Hc. rewrite (N2 EDEPTH Hc (eq_sym T)). reflexivity.
+      * split; [intros; apply fnn_none|]. split; [exact N2|].
+        intros d q. destruct (atrue_seq0 d i nd G K q) as [d' q']. rewrite Ki in q'. cbn [existsb] in q'.
+        rewrite orb_false_r in q'. specialize (AT d' q'). congruence.
+  - rewrite C. destruct O as (E & Q1 & Q2). right; right.
+    split; [apply eqx_set_pos_l; apply eqx_set_pos_l; exact E|]. split; [intros _; apply pos_set_pos | exact Q2].
+  - rewrite C. right; right. exact I.
+Qed.
+
 Lemma step fa fb : fa + fb <= S n -> sim fa fb.
 Proof.
   intros L i j c HIn psq1 psq2 s. destruct (HR _ HIn) as [Hl|Hs]; [|apply Hs].
   destruct fa as [|fa]; [left; reflexivity|]. destruct fb as [|fb]; [right; left; reflexivity|].
   unfold local_ok in Hl. destruct (get_node g1 i) as [a|] eqn:G1; [|discriminate].
   destruct (get_node g2 j) as [b|] eqn:G2; [|discriminate].
-  apply orb_true_iff in Hl as [Hl|Hl].
+  apply orb_true_iff in Hl as [Hl|Hl]; [apply orb_true_iff in Hl as [Hl|Hl]|].
   - apply (step_struct i j c a b); try assumption. lia.
   - destruct (unit_kid g2 j) as [y|] eqn:U; [|discriminate]. apply andb_true_iff in Hl as [H1 H2].
     apply (step_unwrap i j c y); try assumption. lia.
+  - destruct (unit_kid g1 i) as [x|] eqn:U; [|discriminate]. apply andb_true_iff in Hl as [H1 H2].
+    apply (step_unwrap_l i j c x); try assumption. lia.
 Qed.
 
 End Step.
@@ -1338,3 +1416,8 @@ Lemma witness_memo :
   PegEquiv.accepts (run g_sep1 cfg0 no_orc true 60 [91; 120; 44; 32; 120; 93]%N) = true /\
   PegEquiv.accepts (run g_sep2 cfg0 no_orc true 60 [91; 120; 44; 32; 120; 93]%N) = true.
 Proof. vm_compute. repeat split. Qed.
+
+(* wrappers and nested sequences on the FIRST grammar *)
+Lemma witness_swapped :
+  peg_equiv_diffs [] [] g_wrapped g_plain = [] /\ peg_equiv_diffs [] [] g_other g_plain <> [].
+Proof. vm_compute. split; [reflexivity | discriminate]. Qed.
